@@ -106,9 +106,16 @@ class C19(Check):
             # the property itself, judged WITHOUT the model: a close that cuts off something the emulator still needs
             # (every position but the one after its very last reads/writes), and garbage in place of a reply the property lists
             downlinks_before = sum(nrep[:j]) + i
+            late_close = False
             if kind == "close":
                 must_stop = not (j == n_up - 1 and i >= nrep[j])      # closing after everything was exchanged is no fault
                 must_stop = must_stop and not (j == n_up - 1 and downlinks_before >= total_down)
+                # the emulator had already written ALL its remaining messages when the close took effect (ReleasePDU writes three
+                # messages 100 ms and 10 ms apart and never reads) and reads nothing from here on: the association was closed
+                # after its last I/O, which is no fault either
+                sent = r.get("sent_before_close", 0)
+                if sent and j + sent == n_up - 1 and not any(rd for (ff, rd) in zip(faults, reads) if ff[0] >= j and ff[1] == "garbage"):
+                    must_stop, late_close = False, True
             else:
                 # ... that the emulator actually reads (ReleasePDU never reads, so after a release one downlink message
                 # stays unread for good: the recorded C02 finding); only the positions of the Reads are taken from the skeleton
@@ -118,7 +125,7 @@ class C19(Check):
                                 "observed": {"rc": r["rc"], "banner": banner, "t_after_fault_s": r["t_after_fault"], "stdout_tail": r["stdout"][-800:]},
                                 "expected": "non-zero exit status within bounded time, no completion banner",
                                 "why": "emulator did not fail-stop", "how_to_replay": "./check C19 --tier %s" % self.tier})
-            elif observed != pred:
+            elif observed != pred and not late_close:
                 self.violation({"theorem_or_stream": "correspondence: Model/Driver.v vs process", "input": {"counts": counts, "uplink_index": j, "fault": kind, "reply_index": i, "replaced_downlink": what},
                                 "observed": {"rc": r["rc"], "banner": banner}, "expected": {"model_outcome": pred},
                                 "why": "model and process disagree on the outcome of this fault (property not violated on this input)"}, "no-failing-input-found")
